@@ -2429,8 +2429,11 @@ EbErrorType read_tile_group_obu(Bitstrm *bs, EbDecHandle *dec_handle_ptr, TilesI
             status = start_parse_tile(dec_handle_ptr, parse_ctxt, tiles_info, tile_num, is_mt);
             if (status != EB_ErrorNone) /* tile data outside the OBU: do not filter a frame that was not parsed */
                 return status;
-            if (tile_num != tg_end) /* nothing follows the last tile: do not prefetch past the OBU */
-                dec_bits_init(bs, (get_bitsteam_buf(bs) + tile_size), obu_header->payload_size);
+            if (tile_num != tg_end) { /* nothing follows the last tile: do not prefetch past the OBU */
+                /* start_parse_tile checked that the tile lies inside the OBU (ends at buf_max) */
+                uint8_t *next_tile = get_bitsteam_buf(bs) + tile_size;
+                dec_bits_init(bs, next_tile, (size_t)(bs->buf_max - next_tile));
+            }
         }
     }
 
